@@ -807,7 +807,6 @@ R8 = REG.add(Contract(
     ensures=lambda c: r8_state(c, c.a["data_assigned_to_curves"].n),
     loops={0: lambda c: r8_state(c, c.i)}, loop_fields=["data"], dict_like=("data_assigned_to_curves",),
     modifies={"data": None},
-    verify_with=block_verifier("las.LASFile.read", "for curve_idx, flag in data_assigned_to_curves.items():",
-                               "for curve_idx, flag in data_assigned_to_curves.items():", "las"),
+    verify_with=block_verifier("las.LASFile.read", "for curve_idx, ", 1, "las"),
     properties=("C07",), may_raise=["Any"]))
 R8.note = "np.empty(n) * np.nan is an opaque numpy expression (T-np: float64 NaN array of length n)"
